@@ -117,7 +117,83 @@ template <class T> static void sphere_stage ()
     if (ok) R ().stage_done (std::to_string (cases.load ()) + " (centre, radius, origin, direction) cases with exact integer discriminant; 3375 boxes");
     else R ().stage_partial ("deadline");
 }
-void run_sphere () { sphere_stage<float> (); sphere_stage<double> (); }
+// ------------------------------------------------------------------------------------------------
+// Origin EXACTLY on the sphere.  Statement: "intersectT returns the smallest non-negative ray parameter on the
+// sphere (false if none)".  With the ray origin on the sphere, t = 0 is a root of |pos + t dir - c|^2 = r^2 and the
+// other root is -2 (dir.w): inward ray (dir.w < 0) roots {0, chord > 0}; tangent ray: double root 0; outward ray
+// roots {-chord < 0, 0}.  In all three the smallest non-negative parameter is 0, so the demand is: true, t = 0,
+// and intersect() returns the origin itself.
+// Input class: every integer point w of [-13,13]^3 whose squared length is a perfect square r^2 (r = 1..13: the
+// axis points, the (3,4,0) / (1,2,2) / (2,3,6) / (3,4,12) / (5,12,0) / (1,4,8) ... families with all permutations
+// and signs), origin c + w for several centres c, every direction of the alphabet, everything times 2^k.
+// Why the answer is exactly decidable here (the generic sphere stage has to accept either root when a root is
+// within its rounding tolerance of 0): c, w, r are small integers times 2^k, so pos - c = w, w.w and r^2 are
+// computed without any rounding and the constant term C = w.w - r^2 is exactly 0; the discriminant is therefore
+// fl(B^2) >= 0 (never "miss") and an IEEE sqrt gives sqrt(fl(B^2)) = |B| exactly (radix 2), so the root nearer 0
+// evaluates to exactly 0 whatever rounding B = 2 dir.w itself carries; the other root is +-B, |B| >= 2/|v| >= 2/7 x 2^k
+// away when the ray is not tangent.  For a tangent ray B is only the rounding residue of dir.w (<= 4 eps |w|_1,
+// dir components carry <= 2 eps), so either root is within 8 eps |w|_1 of 0.  Tolerance, fixed a priori:
+// |t| <= 16 eps (|w|_1 + r + 1) 2^k (the same 16 eps S term as the generic stage), more than 2^18 times smaller than
+// the chord of any non-tangent lattice ray, so returning the far root can never pass.
+template <class T> static void onsphere_stage ()
+{
+    const LD e = ex::eps<T> ();
+    std::string st = std::string ("on-sphere.") + tname<T> ();
+    if (!R ().stage (st)) return;
+    struct P { I3 w; ll r; };
+    std::vector<P> PP;
+    for (ll x = -13; x <= 13; ++x)
+        for (ll y = -13; y <= 13; ++y)
+            for (ll z = -13; z <= 13; ++z)
+            {
+                ll n = x * x + y * y + z * z, r = (ll) llroundl (sqrtl ((LD) n));
+                if (n > 0 && r * r == n) PP.push_back ({{x, y, z}, r});
+            }
+    const std::vector<I3> CC = {{0, 0, 0}, {1, -2, 2}, {-1, 1, 0}};
+    const int KK[] = {-12, 0, 12};
+    const auto D = directions ();
+    std::atomic<ll> inw (0), outw (0), tang (0), axis (0), pyth (0), scaled (0), cases (0);
+    bool ok = parallel_chunks (PP.size () * CC.size (), 4, [&] (uint64_t lo, uint64_t hi, unsigned) {
+        ll k_in = 0, k_out = 0, k_tan = 0, k_ax = 0, k_py = 0, k_sc = 0, k_c = 0;
+        for (uint64_t i = lo; i < hi; ++i)
+        {
+            const P& p = PP[i / CC.size ()];
+            const I3 c = CC[i % CC.size ()], w = p.w;
+            const ll r = p.r;
+            const bool is_axis = l1 (w) == r;
+            for (int k : KK)
+                for (const I3& v : D)
+                {
+                    ++k_c; if (is_axis) ++k_ax; else ++k_py; if (k) ++k_sc;
+                    const T sc = (T) std::ldexp (1.0, k);
+                    Sphere3<T> sp (toV<T> (c) * sc, (T) r * sc);
+                    Line3<T>   l (toV<T> (c + w) * sc, toV<T> (c + w + v) * sc); // all products exact (|n| <= 34, power of two)
+                    const ll b = dot (v, w);
+                    const char* cl = b < 0 ? "inward" : (b > 0 ? "outward" : "tangent");
+                    if (b < 0) ++k_in; else if (b > 0) ++k_out; else ++k_tan;
+                    T t = 77; Vec3<T> X ((T) 77);
+                    bool r1 = sp.intersectT (l, t), r2 = sp.intersect (l, X);
+                    const LD tol = 16 * e * (LD) (l1 (w) + r + 1) * ldexpl (1, k);
+                    auto in = [&] () { return std::string ("T=") + tname<T> () + " Sphere3(" + s (c) + ", " + std::to_string (r) + ") Line3(" + s (c + w) + ", +" + s (v) + ") all x 2^" + std::to_string (k) + " [origin exactly on the sphere, " + cl + ", dir.w = " + std::to_string (b) + "/|v|]"; };
+                    const std::string site = std::string ("Sphere3::intersectT.origin-on-sphere.") + cl;
+                    if (r1 != r2) R ().fail ("Sphere3::intersect-vs-intersectT.origin-on-sphere", in (), fmt (r1), fmt (r2));
+                    if (!r1) R ().fail (site + ".false-on-hit", in (), "true, t = 0", "false");
+                    else if (!(fabsl ((LD) t) <= tol))
+                        R ().fail (site + ".smallest-nonnegative-root", in (), "0 (other root " + s (-2 * (LD) b / sqrtl ((LD) dot (v, v)) * ldexpl (1, k)) + ")", fmt (t));
+                    if (r2 && !(maxdiff (X, toL (l.pos)) <= tol)) // |dir| <= 1 + 2 eps: |X - pos| <= |t| (1 + 4 eps); judged against the same bound (t itself is judged above)
+                        R ().fail (std::string ("Sphere3::intersect.origin-on-sphere.") + cl + ".point-is-origin", in (), s (l.pos), s (X));
+                }
+        }
+        inw += k_in; outw += k_out; tang += k_tan; axis += k_ax; pyth += k_py; scaled += k_sc; cases += k_c;
+    });
+    R ().add ("states", cases); R ().add ("evaluations", cases); R ().add ("transitions", cases.load () * 2);
+    R ().cls ("on-sphere.inward(near-root-exactly-0,far-root-positive)", inw); R ().cls ("on-sphere.outward(far-root-exactly-0)", outw);
+    R ().cls ("on-sphere.tangent(double-root-0)", tang); R ().cls ("on-sphere.axis-origin", axis); R ().cls ("on-sphere.pythagorean-origin", pyth);
+    R ().cls ("on-sphere.scaled-by-2^k", scaled);
+    if (ok) R ().stage_done (std::to_string (PP.size ()) + " integer points on spheres of radius 1..13 x 3 centres x 3 dyadic scales x " + std::to_string (D.size ()) + " directions, origin exactly on the sphere (C = 0 exactly)");
+    else R ().stage_partial ("deadline");
+}
+void run_sphere () { sphere_stage<float> (); sphere_stage<double> (); onsphere_stage<float> (); onsphere_stage<double> (); }
 
 // ------------------------------------------------------------------------------------------------
 // Triangle.  All ordered vertex triples of L(1)^3 (19683, degenerate ones included).  For a non-degenerate
